@@ -73,6 +73,7 @@ type Clause struct {
 	E     *Expr
 	Text  string
 	Pos   string
+	DefOf   *GhostFunc // this axiom is the defining equation of a heap-recursive ghost function
 	Defines bool // definitional postcondition: assumed by callers, not an obligation (listed in the evidence)
 }
 
